@@ -7,6 +7,7 @@ operator).  The guard-level simulation is in preparation (see DESIGN §5 C08).
 -/
 import ClvmModel.Interp.Machine
 import ClvmProofs.Lemmas.Interp.HideSim
+import ClvmProofs.Lemmas.Interp.HideCrypto
 
 namespace Clvm.Props.C08
 open Clvm Clvm.Interp
@@ -153,5 +154,20 @@ dialect never recognises an extension. -/
 theorem hide_knows_no_extension (cfg : Cfg) (extra : String → Option OpFn) (F : Nat) (ol : Val) :
     ∃ err, parseSoftforkArguments (hideDialect cfg extra F) ol = .error err :=
   hide_parse cfg extra F ol
+
+/-- the model's operator table satisfies the hypotheses of `hide_sim` -/
+theorem cryptoExtra_secpSpec : SecpSpec cryptoExtra :=
+  ⟨fun f h fl m args c r hr => cryptoExtra_secp_k1 f h fl m args c r hr,
+   fun f h fl m args c r hr => cryptoExtra_secp_r1 f h fl m args c r hr⟩
+
+/-- **`hide_sim` for the model's full operator table** (`cryptoExtra`: BLS, keccak, secp, coinid,
+sha256tree, …), no hypothesis left on the operators -/
+theorem hide_sim_crypto (cfg : Cfg) (F : Nat)
+    (hN : newModel F = false) (hU : hasFlag F Gen.FLAG_NO_UNKNOWN_OPS = false)
+    (fuel : Nat) (c0 : Ctr) (p env : Val) (mc0 : Nat) (hp : p.wf = true) (he : env.wf = true)
+    (C : Nat) (v : Val) (ctr : Ctr)
+    (h : runProgram cfg (chiaDialect cfg cryptoExtra F) fuel c0 p env mc0 = some (.ok (C, v, ctr))) :
+    ∃ fuel', runProgram cfg (hideDialect cfg cryptoExtra F) fuel' c0 p env mc0 = some (.ok (C, v, ctr)) :=
+  hide_sim cfg cryptoExtra F hN hU cryptoExtra_wf cryptoExtra_secpSpec fuel c0 p env mc0 hp he C v ctr h
 
 end Clvm.Props.C08
